@@ -9,6 +9,8 @@
 #[macro_use]
 pub mod nondet;
 pub mod stubs;
+pub mod bounded;
+pub mod state;
 #[macro_use]
 pub mod registry;
 pub mod bodies;
